@@ -535,6 +535,25 @@ func Bin(op Op, a, b *Term) *Term {
 		if b.IsConst() && b.k != 0 && b.k&(b.k-1) == 0 {
 			return Bin(OBAnd, a, BV(b.k-1, w))
 		}
+	case OSDiv:
+		// signed division by 2^k (k < w-1), rounding toward zero:
+		//   (x + ((x >>s (w-1)) & (2^k - 1))) >>s k
+		if b.IsConst() && b.k == 1 {
+			return a
+		}
+		if b.IsConst() && b.k > 1 && b.k&(b.k-1) == 0 && b.k < uint64(1)<<(w-1) {
+			k := uint64(bits.TrailingZeros64(b.k))
+			sign := Bin(OAShr, a, BV(uint64(w)-1, w))
+			bias := Bin(OBAnd, sign, BV(b.k-1, w))
+			return Bin(OAShr, Bin(OAdd, a, bias), BV(k, w))
+		}
+	case OSRem:
+		// x % 2^k = x - ((x / 2^k) << k)
+		if b.IsConst() && b.k > 1 && b.k&(b.k-1) == 0 && b.k < uint64(1)<<(w-1) {
+			k := uint64(bits.TrailingZeros64(b.k))
+			q := Bin(OSDiv, a, b)
+			return Bin(OSub, a, Bin(OShl, q, BV(k, w)))
+		}
 	case OBAnd:
 		if a.IsConst() {
 			a, b = b, a
